@@ -43,6 +43,13 @@ def cases(tier, seed):
             for layout in ["single", "spread"] + [f"empty{k}" for k in range(N)]:
                 out.append(dict(part="centres", world=world, N=N, perm=list(perm), layout=layout,
                                 weighted=weighted, seed=seed))
+            # input read in several chunks, rows in reverse order: higher patch ids are met first
+            for cs in (1, 2, 3):
+                out.append(dict(part="centres", world=world, N=N, perm=list(perm), layout="spread",
+                                weighted=weighted, seed=seed, chunksize=cs, reverse=True))
+                if tier != "quick":
+                    out.append(dict(part="centres", world=world, N=N, perm=list(perm), layout="single",
+                                    weighted=weighted, seed=seed, chunksize=cs, reverse=True))
     for N, weighted, scramble in itertools.product((2, 3, 4), (False, True), (0, 1, 2)):
         out.append(dict(part="ids", N=N, weighted=weighted, scramble=scramble, seed=seed))
     for K, weighted in itertools.product((2, 3), (False, True)):
@@ -54,8 +61,8 @@ def cases(tier, seed):
         for ids in others:
             out.append(dict(part="refuse-ids", N=N, ids=ids, seed=seed))
         for k, f in itertools.product(range(N), (0.0, 0.4, 1.1, 3.0)):
-            for which in ("unknown", "reference"):
-                out.append(dict(part="refuse-shift", N=N, k=k, factor=f, which=which, seed=seed))
+            for which, bigger in itertools.product(("unknown", "reference"), ("reference", "unknown")):
+                out.append(dict(part="refuse-shift", N=N, k=k, factor=f, which=which, bigger=bigger, seed=seed))
     return out
 
 
@@ -139,13 +146,15 @@ def objects_for(N, layout, seed, weighted):
 def run_centres(case):
     world, N, perm = case["world"], case["N"], case["perm"]
     objs = objects_for(N, case["layout"], case["seed"], case["weighted"])
+    if case.get("reverse"):
+        objs = objs[::-1]
     cat_ref = worlds.realise(world, objs, N)
     cen = worlds.centres(world, N)[perm]  # permuted centre list handed to the library
     v = []
     d = runner.fresh_dir("c12")
     empty = case["layout"].startswith("empty")
     try:
-        cat = worlds.make_catalog(d + "/cat", cat_ref, cen)
+        cat = worlds.make_catalog(d + "/cat", cat_ref, cen, chunksize=case.get("chunksize"))
     except Exception as e:
         if empty:
             return [], True  # raising for a centre without objects is what C09 asks for
@@ -157,6 +166,7 @@ def run_centres(case):
 
     check_catalog(Catalog(d + "/cat"), "centres", v, given_centres=cen, input_rows=len(objs), tag=tag + "/reopened")
     nontrivial = empty or (N >= 3 and perm != sorted(perm)) or case["layout"] == "spread"
+    tag = tag  # (chunked/reversed inputs share the signatures of the unchunked ones)
     return v, nontrivial
 
 
@@ -201,7 +211,7 @@ def run_create(case):
     return v, True
 
 
-def two_catalogs(N, seed, ids_b=None, shift=None):
+def two_catalogs(N, seed, ids_b=None, shift=None, bigger="reference"):
     """Reference-like catalog A and unknown-like catalog B in patch-id mode."""
     ra, dec, z, pid = [], [], [], []
     for k in range(N):
@@ -214,7 +224,7 @@ def two_catalogs(N, seed, ids_b=None, shift=None):
     rb, db, pb = [], [], []
     ids = ids_b if ids_b is not None else list(range(N))
     for k in ids:
-        for t, off in enumerate([0.1, 0.4, -0.4]):
+        for t, off in enumerate([0.1, 0.4, -0.4] + ([0.3, -0.3, 0.2] if bigger == "unknown" else [])):
             rb.append(30.0 + 6.0 * k + off + (shift[1] if shift and shift[0] == k else 0.0))
             db.append(0.1 * (t % 2))
             pb.append(k)
@@ -247,10 +257,10 @@ def run_refuse_ids(case):
 
 def run_refuse_shift(case):
     N, k, f = case["N"], case["k"], case["factor"]
-    A, B0 = two_catalogs(N, case["seed"])
+    A, B0 = two_catalogs(N, case["seed"], bigger=case.get("bigger", "reference"))
     # radii: A patches extend 0.5 deg, B 0.4 deg around their means; displace by f x the larger one
     shift = f * 0.6
-    A, B = two_catalogs(N, case["seed"], shift=(k, shift))
+    A, B = two_catalogs(N, case["seed"], shift=(k, shift), bigger=case.get("bigger", "reference"))
     if case["which"] == "reference":  # displace the reference catalog's patch instead
         A["ra"] = [r + (shift if p == k else 0.0) for r, p in zip(A["ra"], A["pid"])]
         B = B0
@@ -268,7 +278,7 @@ def run_refuse_shift(case):
         raised = e
     v = []
     if must_raise and raised is None:
-        v.append(viol(f"C12/refuse/displaced-centre-accepted/{case['which']}",
+        v.append(viol(f"C12/refuse/displaced-centre-accepted/{case['which']}-displaced/{case.get('bigger')}-larger",
                       f"centres of patch {k} are {dist:.4f} rad apart, radii {ra_:.4f}/{rb_:.4f}: measurement "
                       f"did not refuse", case))
     if must_pass and raised is not None:
